@@ -18,24 +18,30 @@ extern "C" void harness_c13_lambda()
     Gen g = make_gen();
     Recipe r1, r2;
     r1.root = g.gen(r1, (int)verif_param("depth", 2), "t");
-    r2.root = g.gen(r2, 1, "u");
+    r2.root = g.gen(r2, (int)verif_param("udepth", 1), "u");
     ve::Env env;
     env.val["x"] = verif_real("x");
     env.val["y"] = verif_real("y");
     RCP<const Basic> e1 = build(r1, r1.root), e2 = build(r2, r2.root);
     // second output shares a subterm with the first (what cse is about)
-    RCP<const Basic> shared = add(e1, e2), out3 = mul(e1, e1);
+    RCP<const Basic> shared = add(e1, e2), out3 = mul(e1, add(e1, integer(1)));
     bool cse = verif_choice("cse", 2);
     LambdaRealDoubleVisitor v;
-    v.init({symbol("x"), symbol("y")}, {e1, shared, out3}, cse);
+    try {
+        v.init({symbol("x"), symbol("y")}, {e1, shared, out3}, cse);
+    } catch (NotImplementedError &) {
+        // e.g. log of a negative constant is a complex number: the real evaluator refuses it, which is not a wrong value
+        VERIF_END();
+        return;
+    }
     double in[2] = {env.val["x"], env.val["y"]}, out[3] = {0, 0, 0};
     v.call(out, in);
     Dual a = eval(r1, r1.root, env, ""), b = eval(r2, r2.root, env, "");
     verif_assert_req(out[0], a.v, "lambda output 0 is the value of the expression at the inputs");
     verif_assert_req(out[1], a.v + b.v, "lambda output 1 (shares a subterm) is the value of the expression");
-    verif_assert_req(out[2], a.v * a.v, "lambda output 2 is the value of the expression");
+    verif_assert_req(out[2], a.v * (a.v + 1.0), "lambda output 2 is the value of the expression");
     // re-initialisation behaves like a fresh evaluator (also when the cse setting changes)
-    bool cse2 = verif_choice("cse2", 2);
+    bool cse2 = verif_param("cse2flip", 0) ? !cse : (bool)verif_choice("cse2", 2);
     v.init({symbol("y"), symbol("x")}, {e2}, cse2);
     double in2[2] = {env.val["y"], env.val["x"]}, o2[1] = {0};
     v.call(o2, in2);
